@@ -741,17 +741,18 @@ func pathshapeFloors(r *mon.Run) {
 	r.Floor("pathshape_cases_bytes_below_256", 2)
 	r.Floor("pathshape_cases_on_the_ladder_of_totals", 8)
 	r.Floor("pathshape_cases_20_or_more_directories", 30)
-	r.Floor("pathshape_cases_100_or_more_directories", 12)
+	// (the counts from here to the three-dots line depend on PRNG draws: floors at about a third of what seed 1 gives)
+	r.Floor("pathshape_cases_100_or_more_directories", 8)
 	r.Floor("pathshape_cases_with_a_component_of_200_to_255_bytes", 45)
-	r.Floor("pathshape_cases_with_a_component_of_255_bytes", 20)
-	r.Floor("pathshape_cases_with_a_file_name_of_200_to_255_bytes", 4)
+	r.Floor("pathshape_cases_with_a_component_of_255_bytes", 12)
+	r.Floor("pathshape_cases_with_a_file_name_of_200_to_255_bytes", 2)
 	r.Floor("pathshape_cases_spelt_plainly", 40)
-	r.Floor("pathshape_cases_with_dot-component", 30)
-	r.Floor("pathshape_cases_with_doubled-slash", 30)
-	r.Floor("pathshape_cases_with_dotdot-behind-an-existing-directory", 12)
-	r.Floor("pathshape_cases_with_trailing-dot-component", 20)
-	r.Floor("pathshape_cases_with_leading-dot-component", 8)
-	r.Floor("pathshape_cases_with_three-dots-component", 6)
+	r.Floor("pathshape_cases_with_dot-component", 20)
+	r.Floor("pathshape_cases_with_doubled-slash", 20)
+	r.Floor("pathshape_cases_with_dotdot-behind-an-existing-directory", 6)
+	r.Floor("pathshape_cases_with_trailing-dot-component", 10)
+	r.Floor("pathshape_cases_with_leading-dot-component", 3)
+	r.Floor("pathshape_cases_with_three-dots-component", 3)
 	r.Floor("pathshape_generating_starts", 180)
 	r.Floor("pathshape_generating_starts_below_new_directories", 58)
 	r.Floor("pathshape_generating_starts_with_all_parents_existing", 120)
